@@ -515,19 +515,38 @@ fn arg_nodes<'a>(a: &Arg, cur: &Node<'a>, root: &'a J, k: &Quirks) -> Vec<Node<'
 }
 
 /// the pattern text the library hands to its engine (model of K5a), given the value it sees
-pub fn mangle_pattern(p: &str) -> String {
-    let p = if p.contains("\\\\") {
+pub fn collapse_backslashes(p: &str) -> String {
+    if p.contains("\\\\") {
         p.replace("\\\\", "\\")
     } else {
         p.to_string()
-    };
+    }
+}
+
+pub fn mangle_pattern(p: &str) -> String {
+    let p = collapse_backslashes(p);
     p.trim_matches(|c| c == '\'' || c == '"').to_string()
 }
 
 pub fn regex_fn(subject: Option<J>, pattern: Option<J>, search: bool, k: &Quirks) -> bool {
     match (subject, pattern) {
         (Some(J::Str(s)), Some(J::Str(p))) => {
-            let p = if k.regex_mangle { mangle_pattern(&p) } else { p };
+            // the library's own treatment, exactly: every pattern has its doubled backslashes collapsed; search()
+            // works on the pattern with the quotation marks at its ends trimmed; match() only demands that the
+            // trimmed pattern be valid on its own and then matches the untrimmed one
+            let p = if k.regex_mangle {
+                let trimmed = mangle_pattern(&p);
+                if search {
+                    trimmed
+                } else {
+                    if regexo::parse(&trimmed).is_err() {
+                        return false;
+                    }
+                    collapse_backslashes(&p)
+                }
+            } else {
+                p
+            };
             match regexo::parse(&p) {
                 Ok(re) => {
                     if search {
